@@ -2,6 +2,7 @@ CONSTANTS
   Publishers = {0, 1, 2, 3, 4, 5, 6, 7, 8, 9}
   Readers = {}
   RemoteReaders = {}
+  LockFreeReaders = {}
   Keys <- OnlyRoot
   HasCache = FALSE
   MaxFaults = 0
